@@ -85,7 +85,9 @@ func Go(ctx context.Context, conf ConnConfig, shell Shell) error {
 			VerifyConnection:   vfp,
 		}
 		transport.ForceAttemptHTTP2 = true
-		client.Transport = transport
+		/* Use our own client; changing http.DefaultClient would change
+		every other connection the process makes. */
+		client = &http.Client{Transport: transport}
 	}
 
 	/* Connect to CRS. */
